@@ -554,7 +554,11 @@ struct Run
         }
         else
         {
+#ifndef C07_SKIP_STRUCTURAL   // (self-test of the harness only: lets the registry / sanitizer oracles be exercised alone)
             if (!inside)
+#else
+            if (false)
+#endif
             {
                 bool is_src = (a == wd.src[0] || a == wd.src[1]);
                 fail("not-owning", std::string(who) + ": built from an rvalue but its value is not stored in the wrapper (it refers to " + (is_src ? "the source object" : "an external object") + ")");
@@ -562,6 +566,7 @@ struct Run
             }
         }
         int got = rd(r);
+        if (registry::get().errors) { fail("lifetime", std::string(who) + ": " + registry::get().first_error); registry::get().errors = 0; return false; }
         if (cells[h.cell].spec && got != cells[h.cell].val)
         {
             fail("wrong-value", std::string(who) + " reads " + vf::str(got) + ", expected " + vf::str(cells[h.cell].val));
@@ -636,6 +641,9 @@ struct Run
             if (trk && Cat::lvalue && reg.special_calls() != 0)
                 fail("copied-original", "building the wrapper from an lvalue invoked " + vf::str(reg.copy_ctor) + " copy / " + vf::str(reg.move_ctor) + " move constructions and " +
                                             vf::str(reg.copy_assign + reg.move_assign) + " assignments of the payload (expected none)");
+#ifdef C07_SKIP_STRUCTURAL
+            l1 = l0 + heap + 1;
+#endif
             if (trk && !Cat::lvalue && l1 != l0 + heap + 1)
                 fail("owned-count", "building the wrapper from an rvalue left " + vf::str((long long)(l1 - l0 - heap)) + " owned payload objects alive (expected exactly 1)");
             W o = maker<K, Cat, P>::make(wd, 1);
